@@ -359,3 +359,74 @@ def ref_combine(blocks, ep):
         B = np.asarray(B, dtype=float)
         out.append(np.hstack((l * np.ones((B.shape[0], 1)), B)) if ep else B)
     return np.vstack(out)
+
+
+# ----------------------------------------------------------------------------- shrinking of failing cases
+
+def _spec_variants(spec):
+    """smaller specs: drop one stage of a chain / branch, replace a composite by one of its parts, lower orders/delays"""
+    k = spec['k']
+    if k == 'pipe':
+        ss = spec['ss']
+        for i in range(len(ss)):
+            if len(ss) > 1:
+                yield {'k': 'pipe', 'ss': ss[:i] + ss[i + 1:]}
+            for v in _spec_variants(ss[i]):
+                yield {'k': 'pipe', 'ss': ss[:i] + [v] + ss[i + 1:]}
+        if len(ss) == 1:
+            yield ss[0]
+    elif k == 'split':
+        for key in ('a', 'b'):
+            br = spec[key]
+            for i in range(len(br)):
+                yield dict(spec, **{key: br[:i] + br[i + 1:]})
+                for v in _spec_variants(br[i]):
+                    yield dict(spec, **{key: br[:i] + [v] + br[i + 1:]})
+    elif k == 'poly' and spec['order'] > 1:
+        yield dict(spec, order=spec['order'] - 1)
+    elif k == 'delay':
+        if spec['dx'] > 0:
+            yield dict(spec, dx=spec['dx'] - 1)
+        if spec['du'] > 0:
+            yield dict(spec, du=spec['du'] - 1)
+
+
+def _row_variants(case):
+    rows, ep = case['rows'], case['ep']
+    if ep:
+        labels = []
+        for r in rows:
+            if r[0] not in labels:
+                labels.append(r[0])
+        if len(labels) > 1:
+            for l in labels:
+                yield [r for r in rows if r[0] != l]
+        for l in labels:
+            idx = [i for i, r in enumerate(rows) if r[0] == l]
+            if len(idx) > 1:
+                yield [r for i, r in enumerate(rows) if i != idx[-1]]
+    elif len(rows) > 1:
+        yield rows[:-1]
+
+
+def shrink(case, still_fails, budget=60):
+    """greedy shrinking: keep any smaller variant on which `still_fails(case)` is truthy"""
+    cur = case
+    steps = 0
+    improved = True
+    while improved and steps < budget:
+        improved = False
+        cands = [dict(cur, spec=v) for v in _spec_variants(cur['spec'])] + [dict(cur, rows=r) for r in _row_variants(cur)]
+        for c in cands:
+            steps += 1
+            if steps > budget:
+                break
+            try:
+                c = dict(c, min_len=pipes.loss(c['spec']) + 1)
+                if still_fails(c):
+                    cur = c
+                    improved = True
+                    break
+            except Exception:
+                continue
+    return cur
